@@ -30,8 +30,9 @@ inductive TunState where
   /-- `TcpStream::connect` pending since `since`: the socket guard is already held -/
   | connecting (since : Nat)
   /-- relaying; `clientEnded`: the client half-closed; `orphan`: the client side is gone but the
-      endpoint has not noticed (its next write towards the client fails) -/
-  | open (clientEnded orphan : Bool)
+      endpoint has not noticed (its next write towards the client fails); `originEnded`: the origin
+      half-closed. The tunnel is over when both directions have ended. -/
+  | open (clientEnded orphan originEnded : Bool)
   | mux (u : UdpFlows.St)
   | closed
   deriving Repr, Inhabited
@@ -118,7 +119,7 @@ def setTun (s : St) (t : Nat) (st : TunState) : St :=
 /-- close tunnel `t` whatever it holds, releasing its guards -/
 def closeTun (s : St) (t : Nat) : St :=
   match (s.tuns.getD t default).st with
-  | .connecting _ | .open _ _ => { setTun s t .closed with cells := s.cells.tcpDec }
+  | .connecting _ | .open _ _ _ => { setTun s t .closed with cells := s.cells.tcpDec }
   | .mux u => { setTun s t .closed with cells := s.cells.udpDelta u { u with socks := [] } }
   | .closed => s
 
@@ -128,7 +129,10 @@ def clientGone (s : St) (i : Nat) : St :=
     let tn := s.tuns.getD t default
     if tn.sess = i then
       match tn.st with
-      | .open ce _ => setTun s t (.open ce true)   -- lingers until a write fails or it idles out
+      -- the client's direction reads as ended: with the origin's ended too the tunnel is over,
+      -- otherwise it lingers until a write towards the client fails or it idles out
+      | .open _ _ true => closeTun s t
+      | .open ce _ false => setTun s t (.open ce true false)
       | .mux _ => closeTun s t                     -- the multiplexer's source ends at once
       | _ => s                                      -- a pending connect keeps going
     else s) s
@@ -157,7 +161,7 @@ def step (c : Cfg) (s : St) : Op → St
     if !aliveS s i || (protoOf s i = .h1 && s.tuns.any (·.sess = i)) then
       { s with tuns := s.tuns ++ [{ sess := i, st := .closed }] } else
     match k with
-    | .origin => { s with tuns := s.tuns ++ [{ sess := i, st := .open false false }], cells := s.cells.tcpInc }
+    | .origin => { s with tuns := s.tuns ++ [{ sess := i, st := .open false false false }], cells := s.cells.tcpInc }
     | .dead =>
       -- guard created for the attempt and dropped with its failure; 502; HTTP/1.1 closes
       endIfH1 { s with tuns := s.tuns ++ [{ sess := i, st := .closed }] } i
@@ -166,20 +170,25 @@ def step (c : Cfg) (s : St) : Op → St
   | .up t n =>
     let tn := s.tuns.getD t default
     match tn.st with
-    | .open false false => { s with cells := s.cells.addUp (protoOf s tn.sess) n }
+    | .open false false _ => { s with cells := s.cells.addUp (protoOf s tn.sess) n }
     | _ => s
   | .down t n =>
     let tn := s.tuns.getD t default
     match tn.st with
-    | .open _ false => { s with cells := s.cells.addDn (protoOf s tn.sess) n }
-    | .open _ true => closeTun s t      -- the write towards the vanished client fails
+    | .open _ false false => { s with cells := s.cells.addDn (protoOf s tn.sess) n }
+    | .open _ true false => closeTun s t      -- the write towards the vanished client fails
+    | .open _ _ true => s                     -- the origin has ended its stream: it sends nothing
     | _ => s
   | .tunClose t how =>
     let tn := s.tuns.getD t default
     let i := tn.sess
     if how = 's' then
+      -- the origin half-closes: end of stream towards the client. HTTP/1.1: the connection is shut
+      -- down and the session with it. HTTP/2: over only if the client's direction has ended too.
       match tn.st with
-      | .open _ _ => endIfH1 (closeTun s t) i
+      | .open ce o false =>
+        if protoOf s i = .h1 || ce || o then endIfH1 (closeTun s t) i
+        else setTun s t (.open ce o true)
       | _ => s
     else if !aliveS s i then s      -- there is no client left to end or reset anything
     else if protoOf s i = .h1 then
@@ -187,15 +196,17 @@ def step (c : Cfg) (s : St) : Op → St
       clientGone (endSession s i) i
     else if how = 'g' then
       match tn.st with
-      | .open _ o => setTun s t (.open true o)
+      | .open _ _ true => closeTun s t              -- both directions have ended
+      | .open _ o false => setTun s t (.open true o false)
       | .mux _ => closeTun s t
       | _ => s
     else
       match tn.st with
-      | .open false _ | .mux _ => closeTun s t
+      | .open false _ _ | .mux _ => closeTun s t
+      | .open true _ true => closeTun s t
       -- a reset after the client already ended its stream is noticed only when the endpoint
       -- next writes to it
-      | .open true _ => setTun s t (.open true true)
+      | .open true _ false => setTun s t (.open true true false)
       | _ => s
   | .udpUp t m n =>
     match (s.tuns.getD t default).st with
@@ -212,7 +223,7 @@ def step (c : Cfg) (s : St) : Op → St
       match tn.st with
       | .connecting since =>
         if since + c.establish ≤ s.now then endIfH1 (closeTun s t) tn.sess else s
-      | .open _ _ =>
+      | .open _ _ _ =>
         if 2 * c.tcpIdle ≤ ms then endIfH1 (closeTun s t) tn.sess else s
       | .mux u => stepMux c s t u (.adv ms)
       | .closed => s) s
@@ -223,7 +234,7 @@ def run (c : Cfg) (s : St) (ops : List Op) : St := ops.foldl (step c) s
 
 def liveSessions (s : St) (p : Proto) : Nat := (s.sess.filter fun x => x.alive && x.proto == p).length
 def liveTcp (s : St) : Nat :=
-  (s.tuns.filter fun t => match t.st with | .connecting _ | .open _ _ => true | _ => false).length
+  (s.tuns.filter fun t => match t.st with | .connecting _ | .open _ _ _ => true | _ => false).length
 def liveUdp (s : St) : Nat :=
   (s.tuns.map fun t => match t.st with | .mux u => u.gauge | _ => 0).sum
 
